@@ -398,21 +398,249 @@ pub fn run(rep: &mut Report) {
     for a in accs {
         a.merge_into(rep);
     }
+    daemon_part::run(rep, level > 0);
     rep.states = rep.outcomes.len() as u64;
     rep.traces = rep.evaluations;
-    rep.exhaustive = true;
+    rep.exhaustive = rep.caps.is_empty();
     rep.extra.insert("request_types".into(), json!(reqs.len()));
     rep.extra.insert("cases".into(), json!(all.len()));
     for k in [10usize, all.len() / 3, all.len() / 2, all.len() - 7] {
         let c = &all[k];
         rep.sample(json!({"req": reqs[c.req].name(), "deviations": format!("{:?}", c.devs), "state": c.state}));
     }
-    rep.rule = "part (i): for a well-formed instance of every request code 1..=44: the message itself, every single deviation from {request code 0..=64 and 2^k neighbours, each flag bit, size field in {0,n-1,n+1,4095,4096,4097,2^31,2^32-1}, every 64-/32-bit body field over the boundary lattice, truncated/extended body, descriptor count in {0,1,2,n-1,n+1,32,33,40}, descriptors attached to the body segment}, pairs of deviations on different dimensions, in two negotiation states (nothing / everything) and as the second message after each state-changing message. Non-trivial = deviating messages that were rejected without a handler call, or dispatched with arguments satisfying the independent validity predicate".into();
+    rep.rule = "part (i): for a well-formed instance of every request code 1..=44: the message itself, every single deviation from {request code 0..=64 and 2^k neighbours, each flag bit, size field in {0,n-1,n+1,4095,4096,4097,2^31,2^32-1}, every 64-/32-bit body field over the boundary lattice, truncated/extended body, descriptor count in {0,1,2,n-1,n+1,32,33,40}, descriptors attached to the body segment}, pairs of deviations on different dimensions, in two negotiation states (nothing / everything) and as the second message after each state-changing message. Part (ii): every sequence of length 1 and 2, and the length-3 sequences (memory-table message, ring-address / log / kick message, third message) over ~110 well-typed control messages with adversarial 64-bit fields (user / guest ranges ending just below 2^64, huge sizes and offsets, ring addresses at region edges +-16, ring indexes 0,1,2,255,2^32-1, sizes and bases up to 2^32-1, log windows of 1 byte / 2^62 bytes / unaligned / beyond the file) plus 'guest kick + add_used in the backend', against a running daemon with the dirty-log bitmap; no thread may panic or die. Non-trivial = deviating messages that were rejected without a handler call or dispatched with arguments satisfying the independent validity predicate, and daemon sequences that were survived".into();
     rep.assumptions.push("harness built with overflow-checks and debug-assertions so arithmetic overflow in library code panics; fatal signals are caught by a handler that reports the current case".into());
-    rep.assumptions.push("streams longer than two messages and more than two simultaneous deviations are outside the bound; part (ii) (daemon sequences) is reported under extra.daemon_part when built".into());
+    rep.assumptions.push("part (i): streams longer than two messages and more than two simultaneous deviations are outside the bound; part (ii): sequences longer than 3 messages".into());
 }
 
 pub fn replay(case: &Value, rep: &mut Report) {
     println!("replay C05 by re-running the quick enumeration; case: {case}");
     run(rep);
+}
+
+// ------------------------------------------------------------------------------------------------
+// part (ii): adversarial well-typed sequences against a running daemon
+
+mod daemon_part {
+    use crate::daemonh::*;
+    use crate::rawpeer::{eventfd, memfd};
+    use crate::report::Report;
+    use crate::spec::*;
+    use serde_json::json;
+    use std::os::unix::io::{AsRawFd, OwnedFd};
+    use vhost_user_backend::bitmap::BitmapMmapRegion;
+    use vhost_user_backend::VringRwLock;
+
+    type H = DaemonH<VringRwLock<GM<BitmapMmapRegion>>, BitmapMmapRegion>;
+    const PROTO: u64 = PF_REPLY_ACK | PF_LOG_SHMFD | PF_CONFIGURE_MEM_SLOTS | PF_MQ | PF_RESET_DEVICE;
+    const VIRTIO: u64 = VIRTIO_F_PROTOCOL_FEATURES | VIRTIO_F_LOG_ALL | 0x3;
+
+    #[derive(Clone, Debug)]
+    pub enum M {
+        /// code, payload, descriptor kind (0 none, 1 memfd, 2 eventfd)
+        Msg(&'static str, u32, Vec<u8>, u8),
+        /// guest kick on ring 0's descriptor followed by a ring operation in the backend
+        KickAndUse,
+    }
+
+    const UA: u64 = 0x7f00_0000_0000;
+    const UZ: u64 = u64::MAX - 0x1fff; // user range ending at 2^64 - 0x1000
+
+    pub fn alphabet() -> Vec<M> {
+        let ra = Region { gpa: 0, size: 0x4000, user: UA, offset: 0 };
+        let rz = Region { gpa: 0x10_0000, size: 0x1000, user: UZ, offset: 0x4000 };
+        let rg = Region { gpa: u64::MAX - 0x1fff, size: 0x1000, user: 0x7f10_0000_0000, offset: 0x5000 };
+        let rbig = Region { gpa: 0x20_0000, size: 0x7fff_ffff_f000, user: 0x10_0000, offset: 0 };
+        let roff = Region { gpa: 0x30_0000, size: 0x1000, user: 0x7f20_0000_0000, offset: u64::MAX - 0x1fff };
+        let mut v = vec![
+            M::Msg("SET_MEM_TABLE[A]", SET_MEM_TABLE, p_mem_table(&[ra]), 1),
+            M::Msg("SET_MEM_TABLE[A,user-near-2^64]", SET_MEM_TABLE, p_mem_table(&[ra, rz]), 1),
+            M::Msg("SET_MEM_TABLE[gpa-near-2^64]", SET_MEM_TABLE, p_mem_table(&[rg]), 1),
+            M::Msg("SET_MEM_TABLE[huge-size]", SET_MEM_TABLE, p_mem_table(&[rbig]), 1),
+            M::Msg("SET_MEM_TABLE[huge-offset]", SET_MEM_TABLE, p_mem_table(&[roff]), 1),
+            M::Msg("ADD_MEM_REG[user-near-2^64]", ADD_MEM_REG, p_single_region(&rz), 1),
+            M::Msg("ADD_MEM_REG[gpa-near-2^64]", ADD_MEM_REG, p_single_region(&rg), 1),
+            M::Msg("ADD_MEM_REG[eventfd]", ADD_MEM_REG, p_single_region(&Region { gpa: 0x40_0000, size: 0x1000, user: 0x7f30_0000_0000, offset: 0 }), 2),
+            M::Msg("REM_MEM_REG[A]", REM_MEM_REG, p_single_region(&ra), 0),
+            M::Msg("REM_MEM_REG[absent]", REM_MEM_REG, p_single_region(&rz), 0),
+            M::Msg("SET_FEATURES[0]", SET_FEATURES, p_u64(0), 0),
+            M::Msg("SET_FEATURES[all]", SET_FEATURES, p_u64(VIRTIO | (1 << 29)), 0),
+            M::Msg("SET_FEATURES[!0]", SET_FEATURES, p_u64(u64::MAX), 0),
+            M::Msg("SET_LOG_BASE[1 byte]", SET_LOG_BASE, p_log(1, 0), 1),
+            M::Msg("SET_LOG_BASE[page]", SET_LOG_BASE, p_log(0x1000, 0x1000), 1),
+            M::Msg("SET_LOG_BASE[huge]", SET_LOG_BASE, p_log(1 << 62, 0), 1),
+            M::Msg("SET_LOG_BASE[unaligned-offset]", SET_LOG_BASE, p_log(0x1000, 0x801), 1),
+            M::Msg("SET_LOG_BASE[offset-beyond-file]", SET_LOG_BASE, p_log(0x1000, 1 << 40), 1),
+            M::Msg("RESET_DEVICE", RESET_DEVICE, vec![], 0),
+            M::KickAndUse,
+        ];
+        for idx in [0u32, 1, 2, 255, u32::MAX] {
+            for num in [0u32, 1, 256, 257, 65535, u32::MAX] {
+                if idx > 1 && ![0, 256].contains(&num) {
+                    continue;
+                }
+                v.push(M::Msg("SET_VRING_NUM", SET_VRING_NUM, p_vring_state(idx, num), 0));
+                v.push(M::Msg("SET_VRING_BASE", SET_VRING_BASE, p_vring_state(idx, num), 0));
+            }
+            v.push(M::Msg("GET_VRING_BASE", GET_VRING_BASE, p_vring_state(idx, 0), 0));
+            for en in [0u32, 1, 2] {
+                v.push(M::Msg("SET_VRING_ENABLE", SET_VRING_ENABLE, p_vring_state(idx, en), 0));
+            }
+        }
+        for idx in [0u64, 1, 2, 255] {
+            v.push(M::Msg("SET_VRING_KICK", SET_VRING_KICK, p_u64(idx), 2));
+            v.push(M::Msg("SET_VRING_KICK[nofd]", SET_VRING_KICK, p_u64(idx | 0x100), 0));
+            v.push(M::Msg("SET_VRING_CALL", SET_VRING_CALL, p_u64(idx), 2));
+            v.push(M::Msg("SET_VRING_ERR", SET_VRING_ERR, p_u64(idx), 2));
+        }
+        // ring addresses at region edges (+-16) of A and of the region near 2^64, and far away
+        let edges: Vec<u64> = vec![UA, UA + 0x4000 - 16, UA + 0x4000, UA - 16, UZ, UZ + 0x1000 - 16, UZ + 0x1000, 0, u64::MAX & !0xf];
+        for &d in &edges {
+            for &a in &[UA + 0x100, UZ + 0x100] {
+                v.push(M::Msg("SET_VRING_ADDR", SET_VRING_ADDR, p_vring_addr(0, 0, d, a, a, 0), 0));
+                v.push(M::Msg("SET_VRING_ADDR", SET_VRING_ADDR, p_vring_addr(0, 1, a, d & !0x3, a, d), 0));
+                v.push(M::Msg("SET_VRING_ADDR", SET_VRING_ADDR, p_vring_addr(1, 0, a, a, d & !0x1, 0), 0));
+            }
+        }
+        v
+    }
+
+    struct Files {
+        mem: OwnedFd,
+        ev: OwnedFd,
+    }
+
+    fn apply(h: &mut H, m: &M, f: &Files, kick0: &mut Option<OwnedFd>) -> Result<bool, String> {
+        match m {
+            M::Msg(_, code, payload, fdk) => {
+                let mut keep = None;
+                let fds: Vec<i32> = match fdk {
+                    1 => vec![f.mem.as_raw_fd(); if *code == SET_MEM_TABLE { rd32(payload, 0) as usize } else { 1 }],
+                    2 => {
+                        let e = eventfd(0, true);
+                        let r = e.as_raw_fd();
+                        keep = Some(e);
+                        vec![r]
+                    }
+                    _ => vec![],
+                };
+                let out = h.req(*code, payload, &fds);
+                if *code == SET_VRING_KICK && payload[0] == 0 && payload[1] == 0 {
+                    *kick0 = keep;
+                }
+                match out {
+                    ReqOut::Dead(e) => Err(e),
+                    ReqOut::Closed => {
+                        let _ = h.reconnect();
+                        h.negotiate(VIRTIO, PROTO).map_err(|e| format!("renegotiation after a rejected request failed: {e}"))?;
+                        Ok(false)
+                    }
+                    ReqOut::Msg(d, _) => {
+                        // a failing acknowledged request also ends the session
+                        if reply_kind(d.code) == ReplyKind::AckOnly && d.code != SET_LOG_BASE && d.size == 8 && rd64(&d.payload, 0) != 0 {
+                            let _ = h.reconnect();
+                            h.negotiate(VIRTIO, PROTO).map_err(|e| format!("renegotiation failed: {e}"))?;
+                            return Ok(false);
+                        }
+                        Ok(true)
+                    }
+                }
+            }
+            M::KickAndUse => {
+                if let Some(k) = kick0 {
+                    h.be.sh.0.lock().unwrap().actions.push_back(Action::AddUsedSignal(0, 8));
+                    let one: u64 = 1;
+                    // SAFETY: write to our own eventfd.
+                    unsafe { libc::write(k.as_raw_fd(), &one as *const u64 as *const libc::c_void, 8) };
+                }
+                h.probe(0).map(|_| ()).map_err(|e| format!("worker: {e}"))?;
+                h.be.sh.0.lock().unwrap().actions.clear();
+                Ok(kick0.is_some())
+            }
+        }
+    }
+
+    pub fn run(rep: &mut Report, thorough: bool) {
+        install_panic_watch();
+        let ops = alphabet();
+        let n = ops.len();
+        let mut seqs: Vec<Vec<usize>> = Vec::new();
+        for a in 0..n {
+            seqs.push(vec![a]);
+            for b in 0..n {
+                seqs.push(vec![a, b]);
+            }
+        }
+        // length 3: memory-table message, then a ring-address / log / ring-use message, then anything
+        let firsts: Vec<usize> = (0..n).filter(|i| matches!(&ops[*i], M::Msg(l, ..) if l.starts_with("SET_MEM_TABLE") || l.starts_with("ADD_MEM_REG"))).collect();
+        let seconds: Vec<usize> = (0..n).filter(|i| matches!(&ops[*i], M::Msg(l, ..) if l.starts_with("SET_VRING_ADDR") || l.starts_with("SET_LOG_BASE") || *l == "SET_VRING_KICK")).collect();
+        let thirds: Vec<usize> = if thorough { (0..n).collect() } else { (0..n).filter(|i| matches!(&ops[*i], M::KickAndUse) || matches!(&ops[*i], M::Msg(l, ..) if l.starts_with("REM_MEM_REG") || l.starts_with("SET_MEM_TABLE") || *l == "GET_VRING_BASE")).collect() };
+        for a in &firsts {
+            for b in &seconds {
+                for c in &thirds {
+                    seqs.push(vec![*a, *b, *c]);
+                }
+            }
+        }
+        let start = std::time::Instant::now();
+        let budget = if thorough { 1200.0 } else { 35.0 };
+        let mut done = 0u64;
+        let mut accepted = vec![0u64; n];
+        let mut rejected = vec![0u64; n];
+        for seq in &seqs {
+            if start.elapsed().as_secs_f64() > budget {
+                rep.caps.push(format!("daemon part: wall budget {budget}s hit after {done} of {} sequences", seqs.len()));
+                break;
+            }
+            let labels: Vec<String> = seq.iter().map(|i| match &ops[*i] { M::Msg(l, _, p, _) => format!("{l}{:02x?}", &p[..p.len().min(24)]), M::KickAndUse => "KICK+add_used".into() }).collect();
+            crate::crash::set_case(&format!("{{\"property\":\"C05\",\"signature\":\"C05:process-killed-by-signal\",\"case\":{{\"check\":\"C05\",\"part\":\"daemon\",\"sequence\":{:?}}}}}", labels));
+            let cfg = Cfg { features: VIRTIO | (1 << 29), ..Default::default() };
+            let mut h = H::new(cfg);
+            if let Err(e) = h.negotiate(VIRTIO, PROTO) {
+                rep.violation("C05:daemon:negotiation", &e, json!({"check":"C05","part":"daemon"}));
+                continue;
+            }
+            let f = Files { mem: memfd("c05", 0x8000), ev: eventfd(0, true) };
+            let _ = &f.ev;
+            let mut kick0 = None;
+            let mut bad: Option<String> = None;
+            let mut pat = String::new();
+            for i in seq {
+                match apply(&mut h, &ops[*i], &f, &mut kick0) {
+                    Ok(true) => {
+                        pat.push('a');
+                        accepted[*i] += 1;
+                    }
+                    Ok(false) => {
+                        pat.push('r');
+                        rejected[*i] += 1;
+                    }
+                    Err(e) => {
+                        bad = Some(e);
+                        break;
+                    }
+                }
+            }
+            let panics = take_panics();
+            rep.evaluations += 1;
+            rep.transitions += seq.len() as u64;
+            done += 1;
+            if !panics.is_empty() || bad.is_some() {
+                rep.outcome("daemon:panic-or-dead");
+                let what = panics.first().cloned().or(bad).unwrap_or_default();
+                let site = what.split(" at ").nth(1).map(|s| s.split(':').take(2).collect::<Vec<_>>().join(":")).unwrap_or_else(|| "no-panic-recorded".into());
+                rep.violation(&format!("C05:daemon:thread-died:{site}"), &format!("sequence {:?}: {what}", labels), json!({"check":"C05","part":"daemon","sequence":labels}));
+            } else {
+                rep.outcome(&format!("daemon:survived:{pat}"));
+                rep.nontrivial += 1;
+            }
+        }
+        rep.extra.insert("daemon_sequences".into(), json!(done));
+        rep.extra.insert("daemon_alphabet".into(), json!(n));
+        rep.extra.insert("daemon_messages_always_rejected".into(), json!((0..n).filter(|i| accepted[*i] == 0).count()));
+        rep.extra.insert("daemon_messages_always_accepted".into(), json!((0..n).filter(|i| rejected[*i] == 0).count()));
+        let lab = |i: usize| match &ops[i] { M::Msg(l, _, p, _) => format!("{l} {:x?}", &p[..p.len().min(16)]), M::KickAndUse => "KICK".into() };
+        rep.extra.insert("daemon_always_rejected_labels".into(), json!((0..n).filter(|i| accepted[*i] == 0).map(lab).collect::<Vec<_>>()));
+        rep.extra.insert("daemon_messages_both".into(), json!((0..n).filter(|i| rejected[*i] > 0 && accepted[*i] > 0).count()));
+    }
 }
